@@ -436,6 +436,10 @@ func (it *Interp) callSSA(caller *frame, fn *ssa.Function, args []Value, env []V
 			return h(it, caller, args, fn)
 		}
 	}
+	if r, ok := it.cfg.redirect[name]; ok && r != fn {
+		it.modelsHit["redirect:"+name]++
+		return it.callSSA(caller, r, args, nil, site)
+	}
 	if h, ok := it.cfg.stubs[name]; ok {
 		it.modelsHit["stub:"+name]++
 		return h(it, caller, args, fn)
